@@ -586,6 +586,9 @@ class VerifAct(ml_actions.Action):
             return ml_actions.Result(data=self.key)
         if isinstance(r, (list, tuple)) and r[0] == 'S':
             return ml_actions.Result(data=r[1])
+        if r == 'C':
+            return ml_actions.Result(error='cancel-%s' % self.key,
+                                     cancel=True)
         return ml_actions.Result(error='boom-%s' % self.key)
 
     def test(self, context):
@@ -613,6 +616,9 @@ class VerifAsyncAct(VerifAct):
             res = ml_actions.Result(data=self.key)
         elif isinstance(r, (list, tuple)) and r[0] == 'S':
             res = ml_actions.Result(data=r[1])
+        elif r == 'C':
+            res = ml_actions.Result(error='cancel-%s' % self.key,
+                                    cancel=True)
         else:
             res = ml_actions.Result(error='boom-%s' % self.key)
         W.async_pending.append((aid, res))
